@@ -1162,6 +1162,12 @@ func (g *Gen) VerifyFunction(fn *ssa.Function) (err error) {
 	}
 	fr := g.newFrame(fn, nil, "")
 	fc := fr.contract
+	if fc != nil && fc.SingleTx {
+		g.singleTxRule(fn)
+		if fc.AssumeOnly {
+			return nil // only the structural rule is checked; the value contract stays assumed
+		}
+	}
 	if fc == nil {
 		g.fail("no contract for %s", funcKey(fn))
 	}
@@ -1303,4 +1309,84 @@ func (l *writeLog) inLoopAlloc(root string) bool {
 	}
 	k, err := strconv.Atoi(strings.TrimSuffix(root[len(p):], "))"))
 	return err == nil && k > l.snapAlloc
+}
+
+// singleTxRule is a syntax-directed proof rule for "the database effects of this function are one atomic
+// transaction": the function body calls walletdb.Update exactly once, performs no other walletdb operation outside
+// the closure handed to it, and that closure (and the repository functions it calls) starts no transaction of its own.
+// Together with the assumed atomicity of a bbolt transaction (T-DB) a crash leaves either none or all of the writes.
+func (g *Gen) singleTxRule(fn *ssa.Function) {
+	isWalletdb := func(c *ssa.CallCommon) (string, bool) {
+		if c.IsInvoke() {
+			if n, ok := types.Unalias(c.Value.Type()).(*types.Named); ok && n.Obj().Pkg() != nil && strings.HasSuffix(n.Obj().Pkg().Path(), "/walletdb") {
+				return n.Obj().Name() + "." + c.Method.Name(), true
+			}
+			return "", false
+		}
+		if f, ok := c.Value.(*ssa.Function); ok && f.Pkg != nil && strings.HasSuffix(f.Pkg.Pkg.Path(), "/walletdb") {
+			return f.Name(), true
+		}
+		return "", false
+	}
+	var problems []string
+	updates := 0
+	for _, b := range fn.Blocks {
+		for _, ins := range b.Instrs {
+			var cc *ssa.CallCommon
+			switch x := ins.(type) {
+			case *ssa.Call:
+				cc = &x.Call
+			case *ssa.Defer:
+				cc = &x.Call
+			case *ssa.Go:
+				cc = &x.Call
+			}
+			if cc == nil {
+				continue
+			}
+			if name, ok := isWalletdb(cc); ok {
+				if name == "Update" {
+					updates++
+				} else {
+					problems = append(problems, "database operation "+name+" outside the transaction")
+				}
+			}
+		}
+	}
+	if updates != 1 {
+		problems = append(problems, fmt.Sprintf("%d calls of walletdb.Update (exactly one expected)", updates))
+	}
+	seen := map[*ssa.Function]bool{}
+	var nested func(f *ssa.Function)
+	nested = func(f *ssa.Function) {
+		if seen[f] || len(f.Blocks) == 0 {
+			return
+		}
+		seen[f] = true
+		for _, b := range f.Blocks {
+			for _, ins := range b.Instrs {
+				c, ok := ins.(ssa.CallInstruction)
+				if !ok {
+					continue
+				}
+				cc := c.Common()
+				if name, ok := isWalletdb(cc); ok && (name == "Update" || name == "View" || strings.HasPrefix(name, "DB.Begin")) {
+					problems = append(problems, "nested transaction "+name+" in "+f.Name())
+				}
+				if callee, ok := cc.Value.(*ssa.Function); ok && callee.Pkg != nil && callee.Pkg == fn.Pkg {
+					nested(callee)
+				}
+			}
+		}
+	}
+	for _, an := range fn.AnonFuncs {
+		nested(an)
+	}
+	goal := "true"
+	src := "single_transaction"
+	if len(problems) > 0 {
+		goal = "false"
+		src += ": " + strings.Join(problems, "; ")
+	}
+	g.obls = append(g.obls, &Obligation{Name: funcKey(fn) + "/tx/single", Kind: "structure", Func: g.fnName, Prefix: g.sc.Len(), Reach: "true", Goal: goal, Src: src})
 }
